@@ -41,6 +41,12 @@ CHECKS = {
             "destination pattern (thinned in quick, full in thorough, also re-signed) through parse_authn_request_response; acceptance must imply "
             "every addressing rule and the conforming cells must be accepted.",
             TRUST, "3/C05"),
+    "C06": ("exploration", "exhaustive status/version table on the API boundary with an independent copy of the documented class table",
+            "Rewrites Status (every top-level code x every standard, absent and unknown second-level code x message x with/without a validly "
+            "signed assertion) and Version (responses, assertions, authentication and logout requests) of real messages; a non-Success response "
+            "must raise the documented Status* class (StatusError for absent/unknown codes) and never yield an object; Version other than 2.0 must "
+            "give an exception or None.",
+            TRUST, "3/C06"),
     "C11": ("exploration", "hostile-document workload over introspected entry points with audit-hook, parser-construction and tool-log monitors",
             "Feeds a catalogue of hostile documents (internal/external/parameter entities, billion laughs, external DTD, XInclude, stylesheet PI, "
             "UTF-16/BOM, truncations, non-XML) to every *_from_string of every schema module, the generic constructors, the SOAP/pack readers, the "
